@@ -6,7 +6,7 @@ E1 = "E1 symtorch: real torchsde code traced through torch dispatch with symboli
 E2 = "E2 symx: concolic execution of the real scalar control code, z3 decides path feasibility and per-path assertions"
 CLAIMED = {
  'C01': dict(engine='E1+E2', technique='symbolic step-series of the real solver step at the order read from the real solver object + loop-tiling proof (z3); Milstein fundamental theorem trusted',
-             text='Bounded symbolic check of the local conditions (mean O(h^{p+1}), mean-square O(h^{p+1/2})) that imply strong order p by the fundamental theorem of mean-square convergence, for every accepted (sde_type, method, noise_type, grad_free) with p read from the real solver; plus the proof that consecutive steps consume bm(t_k,t_{k+1}) on the tiling of [ts0, ts_end], that step() does not depend on the solver object's history (every step is the analysed step), and the adaptive-loop invariants (accepted state = two half steps over its own interval, rejected trials leave time and state untouched). The limit itself is not decidable by a bounded query.',
+             text='Bounded symbolic check of the local conditions (mean O(h^{p+1}), mean-square O(h^{p+1/2})) that imply strong order p by the fundamental theorem of mean-square convergence, for every accepted (sde_type, method, noise_type, grad_free) with p read from the real solver; plus the proof that consecutive steps consume bm(t_k,t_{k+1}) on the tiling of [ts0, ts_end], that step() does not depend on the history of the solver object (every step is the analysed step), and the adaptive-loop invariants (accepted state = two half steps over its own interval, rejected trials leave time and state untouched). The limit itself is not decidable by a bounded query.',
              note='trusted: Milstein fundamental theorem, Ito/Stratonovich-Taylor expansion (vt/taylor.py), per-op ATen handlers (validated against the real kernels on every run), z3; generic polynomial f,g of degree (1,3) at d=1, affine (quick) / degree (1,2) (thorough) at d=2; reversible Heun: one step from a consistent state', ref='4/C01'),
  'C02': dict(engine='E1', technique='real solver.step traced symbolically; graded power-series coefficients vs Ito/Stratonovich-Taylor oracle decided by z3 for all jets of f,g',
              text='For every accepted solver/noise-type/option combination the real step() is executed on symbolic (t,y,h,dW,U,A) with generic polynomial f,g whose coefficients are symbols; every series coefficient of grade <= 2p and the Gaussian expectation to grade 2p+1 are proved equal to the stochastic Taylor expansion for all coefficient values (z3), Euler/Milstein textbook formulas exactly; step() on a used solver object is the identical operation DAG as on a fresh one (no hidden per-instance state).',
@@ -43,7 +43,7 @@ CLAIMED = {
              note='equality over the reals (different float operations by construction)', ref='4/C17'),
  'C18': dict(engine='E1', technique='real sdeint(logqp=True) traced symbolically (pinverse intercepted as (g^T g)^-1 g^T); identities by rational normal form + z3 residual, non-negativity by z3',
              text='State trajectory DAG identical to the run without logqp; output shape (T-1, batch); exact value 1/2|c|^2 (t_i - t_{i-1}) when f-h = g c (single-stage solvers for all noise types, all solvers for diagonal/additive except SRK-diagonal); Euler increments equal 1/2|g^+(f-h)|^2 dt at the grid states for all four noise types; non-negativity where z3 decides it; the stable_division guard selects the regular branch on the whole domain |g| > 1e-7; batch 2 for Euler.',
-             note='|g| > 1e-7 / full rank of g assumed (the code\'s guard is proved to agree with that domain); cases whose normal form does not cancel within budget are listed as outside', ref='4/C18'),
+             note='|g| > 1e-7 / full rank of g assumed (the guard in the code is proved to agree with that domain); cases whose normal form does not cancel within budget are listed as outside', ref='4/C18'),
  'C19': dict(engine='E2', technique='concolic enumeration of symbolic enum/int-valued options through the real sdeint/sdeint_adjoint front end (z3 decides branch feasibility; coverage = size of the product), oracle table from DOCUMENTATION.md',
              text='Full forward product (2816 combinations incl. invalid/None method, bm given or not, adaptive, logqp): ValueError before integrate iff unsupported, documented default method and default Levy area; adjoint product: unsupported adjoint methods raise during backward, supported ones complete; bm shapes in 1..3 and all 32 interface subsets: ValueError iff inconsistent/missing; further malformed-argument classes by concrete observation.',
              note='support table transcribed from the documentation; exceptions raised inside user-supplied g_prod when probed with an inconsistent bm count as refused', ref='4/C19'),
